@@ -1805,3 +1805,99 @@ func TestD50_ArgsHonourTheDeclaredTypeForAssignableValuesOfAnotherType(t *testin
 		t.Fatalf("got %d", got)
 	}
 }
+
+// D51 (C06, C05): regression of D45. Clearing the value of a typed argument
+// vertex whenever it was taken made every function reach its type-only
+// arguments afresh: on a "diamond ladder" (C_i(A_{i-1},B_{i-1}) -> A_i,
+// D_i(A_{i-1},B_{i-1}) -> B_i, target(A_n,B_n)) the number of converter
+// executions went from n(n+3)/2 to 2^(n+1)-2 -- 14 levels took 8 s, 20 levels
+// would take minutes. The value is kept again, together with the name
+// preference it was chosen under, and reused under that preference only.
+func TestD51_DeepDiamondLadderResolvesInPolynomiallyManySteps(t *testing.T) {
+	const n = 18
+	type val struct{ K int }
+	valT := reflect.TypeOf(val{})
+	side := func(names ...string) reflect.Type {
+		fs := []reflect.StructField{{Name: "Struct", Type: reflect.TypeOf(argmapper.Struct{}), Anonymous: true}}
+		for i, s := range names {
+			fs = append(fs, reflect.StructField{Name: fmt.Sprintf("F%d", i), Type: valT, Tag: reflect.StructTag(fmt.Sprintf(`argmapper:",typeOnly,subtype=%s"`, s))})
+		}
+		return reflect.StructOf(fs)
+	}
+	var execs int64
+	var opts []argmapper.Arg
+	for i := 1; i <= n; i++ {
+		for _, out := range []string{"a", "b"} {
+			in, res := side(fmt.Sprintf("a%d", i-1), fmt.Sprintf("b%d", i-1)), side(fmt.Sprintf("%s%d", out, i))
+			fn := reflect.MakeFunc(reflect.FuncOf([]reflect.Type{in}, []reflect.Type{res}, false), func(args []reflect.Value) []reflect.Value {
+				atomic.AddInt64(&execs, 1)
+				r := reflect.New(res).Elem()
+				r.Field(1).Set(reflect.ValueOf(val{args[0].Field(1).Interface().(val).K + 1}))
+				return []reflect.Value{r}
+			})
+			opts = append(opts, argmapper.Converter(fn.Interface()))
+		}
+	}
+	tin := side(fmt.Sprintf("a%d", n), fmt.Sprintf("b%d", n))
+	target := argmapper.MustFunc(argmapper.NewFunc(reflect.MakeFunc(reflect.FuncOf([]reflect.Type{tin}, []reflect.Type{reflect.TypeOf(0)}, false), func(args []reflect.Value) []reflect.Value {
+		return []reflect.Value{reflect.ValueOf(args[0].Field(1).Interface().(val).K)}
+	}).Interface()))
+	opts = append(opts, argmapper.TypedSubtype(val{0}, "a0"), argmapper.TypedSubtype(val{0}, "b0"))
+	done := make(chan argmapper.Result, 1)
+	go func() {
+		res, _ := call(target, opts...)
+		done <- res
+	}()
+	for {
+		select {
+		case res := <-done:
+			if res.Err() != nil {
+				t.Fatalf("%v", res.Err())
+			}
+			if res.Out(0).(int) != n {
+				t.Fatalf("got %v, want %d", res.Out(0), n)
+			}
+			if e := atomic.LoadInt64(&execs); e > int64(4*n*n) {
+				t.Fatalf("%d converter executions for %d levels: exponential, not polynomial (n(n+3)/2 = %d)", e, n, n*(n+3)/2)
+			}
+			return
+		case <-time.After(50 * time.Millisecond):
+			// (the count decides, not the clock)
+			if e := atomic.LoadInt64(&execs); e > int64(4*n*n) {
+				t.Fatalf("%d converter executions and no result yet for %d levels: exponential, not polynomial (a resolver that reuses what it has reached needs n(n+3)/2 = %d)", e, n, n*(n+3)/2)
+			}
+		}
+	}
+}
+
+// D52 (C07): regression of D46. With every name on the preference list
+// discounted alike, the name of the parameter being produced right there tied
+// with the names inherited from further out: a converter's NAMED parameter n,
+// to be converted from an int, got the int named n in only ~40% of the calls
+// when the target's parameter a had an int of its own name as well.
+func TestD52_OwnNameOutranksInheritedNames(t *testing.T) {
+	type out struct{ N string }
+	k := func(in struct {
+		argmapper.Struct
+		N string
+		M float64 `argmapper:",typeOnly"`
+	}) out {
+		return out{in.N}
+	}
+	c := func(i int) string { return fmt.Sprint(i) }
+	for i := 0; i < 300; i++ {
+		target := argmapper.MustFunc(argmapper.NewFunc(func(in struct {
+			argmapper.Struct
+			A out
+		}) string {
+			return in.A.N
+		}))
+		res, p := call(target, argmapper.Named("a", 1), argmapper.Named("n", 2), argmapper.Named("z", 3), argmapper.Typed(1.5), argmapper.Converter(k, c))
+		if p != nil || res.Err() != nil {
+			t.Fatalf("%v %v", p, res.Err())
+		}
+		if got := res.Out(0).(string); got != "2" {
+			t.Fatalf("iteration %d: the converter's parameter n was converted from the int %s, want the int named n (2)", i, got)
+		}
+	}
+}
